@@ -283,7 +283,7 @@ def check_l1(pid, replay=None):
     viols = v1 + v2
     crashes = s1["crashes"] + s2["crashes"]
     nviol = report_violations(pid, viols, crashes, "family %s" % family)
-    if crashes:
+    if crashes and not nviol:
         # a child that died without a verdict: for these properties that is infrastructure unless the trace shows a fatal line
         raise Infra("L1 executor died: %s" % crashes[0]["tail"][-1200:])
     others = others_summary(pid, viols)
@@ -984,3 +984,192 @@ def check_c20_full(pid, replay=None):
 
 
 REGISTRY["C20"] = check_c20_full
+
+
+# ============================================================================================== L2 (full stack on the simulated kernel)
+
+L2_MODULES = ["Flags.tla", "MonL2.tla", "UpfL2.tla", "MC_L2.tla"]
+L2_CFG = {
+    "Buffer": """  Periods = {10}
+  Kinds = {"assoc", "estbuf", "del", "kbuf", "mod"}
+""",
+    "Perio": """  Periods = {10, 20}
+  Kinds = {"assoc", "estper", "del", "tick", "rmurr", "krep"}
+""",
+}
+PKT_SCALE = 256     # one model packet = 256 real packets; model QCap 2 = 512 real
+
+
+def mc_generate_l2(family, turns, name, sample_mod=1, sample_key=0, max_edges=None):
+    d = vlib.stage_spec(L2_MODULES, "mcl2-" + name)
+    cfg = ("SPECIFICATION Spec\nCONSTANTS\n  QCap = 2\n  MaxTurns = %d\n%s  SampleMod = %d\n  SampleKey = %d\n"
+           "INVARIANT NoVerdict\nVIEW View\nACTION_CONSTRAINT Emit\nCHECK_DEADLOCK FALSE\n") % (turns, L2_CFG[family], sample_mod, sample_key)
+    with open(os.path.join(d, "MC.cfg"), "w") as fh:
+        fh.write(cfg)
+    cmd = ["tlc", "-workers", str(vlib.NCPU), "-metadir", os.path.join(d, "md"), "-config", "MC.cfg", "MC_L2.tla"]
+    t0 = time.time()
+    edges, tail, nedges = [], [], 0
+    p = subprocess.Popen(cmd, cwd=d, env=vlib._tlc_env(), stdout=subprocess.PIPE, stderr=subprocess.STDOUT, text=True)
+    for ln in p.stdout:
+        ln = ln.rstrip("\n")
+        m = EDGE_RE.match(ln)
+        if m:
+            nedges += 1
+            if max_edges is None or len(edges) < max_edges:
+                try:
+                    edges.append(json.loads(json.loads('"' + m.group(1) + '"')))
+                except ValueError:
+                    pass
+            continue
+        tail.append(ln)
+        tail = tail[-300:]
+    p.wait()
+    out = "\n".join(tail)
+    m = re.search(r"(\d+) states generated, (\d+) distinct states found", out)
+    if p.returncode != 0 or "No error has been found" not in out or not m:
+        raise Infra("model checking of the full-stack ideal model failed (%s):\n%s" % (family, out[-3500:]))
+    return {"generated": int(m.group(1)), "distinct": int(m.group(2)), "edges_printed": nedges, "edges": edges, "wall": time.time() - t0, "cfg": cfg}
+
+
+def l2_script(sid, hist):
+    import gen_l2
+    evs = [gen_l2.x(gen_l1.ev("init", maxrt=1))]
+    for e in hist:
+        e = dict(e)
+        if e["t"] == "kbuf":
+            e["n"] = e["n"] * PKT_SCALE
+            e["base"] = e["base"] * PKT_SCALE
+        evs.append(e)
+    return {"id": sid, "events": evs}
+
+
+def execute_and_judge_l2(binary, scripts, k0, name, nproc=None):
+    nproc = max(1, min(nproc or 12, len(scripts)))
+    chunks = [scripts[i::nproc] for i in range(nproc)]
+    byid = {s["id"]: s for s in scripts}
+
+    def work(i):
+        fout, info = vlib.run_l1(binary, chunks[i], k0 + i, "%s-%d" % (name, i), test="TestVerifL2", timeout=3000)
+        lines = vlib.read_ndjson(fout)
+        crashed = None
+        if info["rc"] != 0:
+            if "INFRA:" in info["tail"]:
+                raise Infra("L2 executor: " + info["tail"][-1500:])
+            crashed = {"rc": info["rc"], "tail": info["tail"][-3000:], "tr": lines[-1]["tr"] if lines else chunks[i][0]["id"]}
+        doc = vlib.tlc_trace(fout, "%s-%d" % (name, i), spec="Trace_L2", modules=("MonL2.tla", "Flags.tla")) if lines else {"viol": []}
+        idx = {(ln["tr"], ln["i"]): ln for ln in lines}
+        return ([{"tr": v["tr"], "i": v["i"], "tags": sorted(v["tags"]), "line": idx.get((v["tr"], v["i"]))} for v in doc["viol"]],
+                len(lines), len({ln["tr"] for ln in lines}), crashed)
+    viols, nlines, ntraces, crashes = [], 0, 0, []
+    with cf.ThreadPoolExecutor(nproc) as ex:
+        for v, nl, nt, cr in ex.map(work, range(nproc)):
+            viols += v
+            nlines += nl
+            ntraces += nt
+            if cr:
+                crashes.append(cr)
+    for v in viols:
+        v["script"] = byid.get(v["tr"])
+        if v["line"]:
+            v["line"] = {k: (x if k not in ("pkts", "gpdu") else x[:8]) for k, x in v["line"].items()}
+    return viols, {"events": nlines, "traces": ntraces, "crashes": crashes}
+
+
+L2_PLAN = {"C13": ("Buffer", 4, 5, "buffering"), "C15": ("Perio", 5, 6, "periodic")}
+
+
+def l2_part(pid, family, turns, gen, n_edges, n_rand, kofs=0):
+    import random
+    import gen_l2
+    seed = vlib.seed()
+    binary = vlib.build_test_binary("internal/pfcp")
+    mc = mc_generate_l2(family, turns, pid)
+    log("MC_L2 %s turns=%d: %d distinct states, %d transitions (all monitors hold on the ideal model) in %.0fs" % (
+        family, turns, mc["distinct"], mc["generated"], mc["wall"]))
+    edges = mc["edges"]
+    rng = random.Random(seed)
+    if len(edges) > n_edges:
+        # prefer the longest paths (they contain the shorter ones as prefixes), seeded choice among them
+        edges.sort(key=len, reverse=True)
+        top = edges[:max(n_edges * 4, n_edges)]
+        edges = rng.sample(top, n_edges)
+    scripts = [l2_script("mc-%s-%d" % (family, i), h) for i, h in enumerate(edges)]
+    rnd = getattr(gen_l2, gen)(seed, n_rand)
+    log("executing %d model paths and %d random histories on the real stack (PFCP server + gtp5g driver + periodic server + buffering listener on the simulated kernel)" % (len(scripts), len(rnd)))
+    v1, s1 = execute_and_judge_l2(binary, scripts, kbase(pid) + kofs, pid + "-mc")
+    v2, s2 = execute_and_judge_l2(binary, rnd, kbase(pid) + kofs, pid + "-rnd")
+    return mc, scripts, rnd, v1 + v2, {"events": s1["events"] + s2["events"], "traces": s1["traces"] + s2["traces"], "crashes": s1["crashes"] + s2["crashes"]}
+
+
+def check_l2(pid, replay=None):
+    t0 = time.time()
+    thorough = vlib.tier() == "thorough"
+    family, tq, tt, gen = L2_PLAN[pid]
+    if replay:
+        binary = vlib.build_test_binary("internal/pfcp")
+        with open(replay) as fh:
+            doc = json.load(fh)
+        viols, st = execute_and_judge_l2(binary, [doc["script"]], kbase(pid) + 9, pid + "-replay", nproc=1)
+        for v in viols:
+            log("line %d: %s" % (v["i"], v["tags"]))
+        if st["crashes"] or any(t.startswith(pid + ":") for v in viols for t in v["tags"]):
+            print("VIOLATION property=%s replay=%s" % (pid, replay))
+            return 1
+        log("replay: no verdict for %s on the current tree" % pid)
+        return 0
+    mc, scripts, rnd, viols, st = l2_part(pid, family, tt if thorough else tq, gen, 3000 if thorough else 250, 1500 if thorough else 60)
+    nviol = report_violations(pid, viols, st["crashes"], "L2 family %s" % family)
+    if st["crashes"] and not nviol:
+        raise Infra("L2 executor died: %s" % st["crashes"][0]["tail"][-1500:])
+    others = others_summary(pid, viols)
+    if others:
+        log("note: verdicts of other properties seen in the same executions: %s" % json.dumps(others))
+    cov = {"states": mc["distinct"], "transitions": mc["generated"], "traces_validated_against_impl": st["traces"],
+           "samples": [brief(scripts[0]), brief(rnd[0])[:10]], "mc_family": family, "mc_constants": mc["cfg"],
+           "edges_total": mc["edges_printed"], "edges_replayed": len(scripts), "random_histories": len(rnd),
+           "events_executed_on_impl": st["events"], "packet_scale": PKT_SCALE, "exhaustive": False,
+           "checker_cmd": "tlc MC_L2.tla (INVARIANT NoVerdict, ACTION_CONSTRAINT Emit); tlc Trace_L2.tla (QCap = 512)",
+           "verdicts_of_other_properties": others}
+    vlib.write_evidence(pid, "model_checking", cov, time.time() - t0, nviol, [
+        "simulated gtp5g kernel (internal/zzverif/simk) in place of the module; go-pfcp as codec of the simulated SMFs; an independent G-PDU reader at the simulated gNBs",
+        "one model packet stands for %d real packets, the model's capacity 2 for the implementation's 512" % PKT_SCALE,
+        "histories put FAR ID first in Update FAR and keep the FAR's tunnel parameters defined before a release (the quantifier); the release may use the tunnel parameters before or after the update"])
+    return 1 if nviol else 0
+
+
+REGISTRY["C13"] = check_l2
+REGISTRY["C15"] = check_l2
+
+_check_l1_c10 = REGISTRY["C10"]
+
+
+def check_c10_full(pid, replay=None):
+    """PFCP-level routing / values (L1) + the kernel multicast path through the real buffering listener (L2)"""
+    if replay:
+        with open(replay) as fh:
+            doc = json.load(fh)
+        if doc.get("note", "").startswith("L2"):
+            L2_PLAN["C10"] = L2_PLAN["C15"]
+            return check_l2(pid, replay)
+        return _check_l1_c10(pid, replay)
+    rc = _check_l1_c10(pid, None)
+    thorough = vlib.tier() == "thorough"
+    mc, scripts, rnd, viols, st = l2_part(pid, "Perio", 6 if thorough else 5, "periodic", 2000 if thorough else 200, 1200 if thorough else 60, kofs=5)
+    n = report_violations(pid, viols, st["crashes"], "L2 family Perio")
+    if st["crashes"] and not n:
+        raise Infra("L2 executor died: %s" % st["crashes"][0]["tail"][-1500:])
+    p = os.path.join(vlib.VERIF, "evidence", pid + ".json")
+    with open(p) as fh:
+        ev = json.load(fh)
+    ev["coverage"]["l2_states"] = mc["distinct"]
+    ev["coverage"]["l2_transitions"] = mc["generated"]
+    ev["coverage"]["l2_traces_validated_against_impl"] = st["traces"]
+    ev["coverage"]["traces_validated_against_impl"] += st["traces"]
+    ev["coverage"]["l2_events_executed_on_impl"] = st["events"]
+    ev["violations"] = ev.get("violations", 0) + n
+    with open(p, "w") as fh:
+        json.dump(ev, fh, indent=1)
+    return 1 if (rc or n) else 0
+
+
+REGISTRY["C10"] = check_c10_full
